@@ -223,9 +223,31 @@ def cli_channel(scn):
     sink = SimRawSink(rng, knobs['write_chunk'], fail_at, fail_errno, stats)
     out = io.TextIOWrapper(io.BufferedWriter(sink, buffer_size=knobs['out_bufsize']), encoding=knobs['stdout_encoding'],
                            errors='strict', newline='', write_through=False)
-    argv = ['-r', dotted(scn['R'])] + list(scn['argv_files'])
+    dashes = ['--'] if any(n.startswith('-') for n in scn['argv_files']) else []
+    argv = ['-r', dotted(scn['R'])] + dashes + list(scn['argv_files'])
     if scn['R'] == 'Html' and knobs.get('omit_r'):
-        argv = list(scn['argv_files'])
+        argv = dashes + list(scn['argv_files'])
+    # A real directory that mirrors the simulated one, as working directory: whatever else the tool asks the real file
+    # system (glob, os.path.exists, pathlib) sees the same files the simulated open() serves.
+    import shutil
+    import tempfile
+    mirror = tempfile.mkdtemp(prefix='c15-mirror-')
+    work = os.path.join(mirror, 'w')
+    os.makedirs(work)
+    for name, data in files.items():
+        if fault.get('kind') in ('ENOENT', 'EACCES') and name == fault.get('file_name'):
+            continue
+        path = os.path.normpath(os.path.join(work, name))
+        if not path.startswith(mirror + os.sep):
+            continue
+        try:
+            os.makedirs(os.path.dirname(path), exist_ok=True)
+            with open(path, 'wb') as f:
+                f.write(data)
+        except OSError:
+            pass
+    old_cwd = os.getcwd()
+    os.chdir(work)
     real_stdout, real_argv = sys.stdout, sys.argv
     had_open = 'open' in cli_mod.__dict__
     old_open = cli_mod.__dict__.get('open')
@@ -244,6 +266,8 @@ def cli_channel(scn):
             if outcome[0] == 'ok':
                 outcome = ('flush-' + core.norm_exc(e)[1], core.norm_exc(e)[2])
     finally:
+        os.chdir(old_cwd)
+        shutil.rmtree(mirror, ignore_errors=True)
         sys.stdout, sys.argv = real_stdout, real_argv
         if had_open:
             cli_mod.open = old_open
